@@ -171,6 +171,7 @@ type fragReader struct {
 	calls   int
 	delay   time.Duration // slow source
 	kind    int           // kind of the injected failure (see injected)
+	once    bool          // only the failAt-th call fails
 }
 
 // seekFrag is a fragReader that can also seek, like a bytes.Reader or a file.
@@ -213,7 +214,7 @@ func (f *fragReader) Read(p []byte) (int, error) {
 	f.mu.Lock()
 	defer f.mu.Unlock()
 	f.calls++
-	if f.failAt > 0 && f.calls >= f.failAt {
+	if f.failAt > 0 && (f.calls == f.failAt || (!f.once && f.calls > f.failAt)) {
 		return 0, injected(f.kind)
 	}
 	if len(p) == 0 {
@@ -412,6 +413,7 @@ type rcfg struct {
 	EOFw     bool   `json:"eofw,omitempty"`
 	FailAt   int    `json:"failat,omitempty"`
 	FailKind int    `json:"failkind,omitempty"` // 0 plain error, 1 wraps io.EOF, 2 wraps io.ErrUnexpectedEOF
+	FailOnce bool   `json:"failonce,omitempty"` // transient: only the failat-th call fails
 	Extra    int    `json:"extra,omitempty"`    // additional Read calls after the end (lifecycle)
 	// Prime: a slow consumer.  Read mode: Read(nil) first (it starts the pipeline and returns), then wait
 	// this many microseconds; WriteTo mode: every Write of the sink takes this long.
@@ -506,7 +508,7 @@ var afterPreLife func()
 func runReaderDelay(data []byte, cfg rcfg, watchdog time.Duration, outLimit int, delay time.Duration) robs {
 	base := lz4Goroutines()
 	done := make(chan robs, 1)
-	src := &fragReader{data: data, pattern: cfg.Frag, eofWith: cfg.EOFw, failAt: cfg.FailAt, delay: delay, kind: cfg.FailKind}
+	src := &fragReader{data: data, pattern: cfg.Frag, eofWith: cfg.EOFw, failAt: cfg.FailAt, delay: delay, kind: cfg.FailKind, once: cfg.FailOnce}
 	go func() {
 		var o robs
 		defer func() {
